@@ -514,7 +514,7 @@ def expand_eq(st, seed):
     elif eq == "ou":
         r["U"] = [rpoly(rng, 3, 3, 2, must=1) + [dict(c=1, e=[0, 0, 2])]]
         r["par"] = dict(alpha=[val("alpha1"), val("alpha2")], mu=[val("mu1"), val("mu2")],
-                        sigma=[_q(rng.choice([2, 4]) if role in ("sigma1", "all") else 0), _q(rng.choice([2, -2]) if role in ("sigma2", "all") else 0)])
+                        sigma=[_q(rng.choice([4, 6]) if role in ("sigma1", "all") else 0), _q(rng.choice([2, -2]) if role in ("sigma2", "all") else 0)])
         if role in ("mu1", "mu2"):       # mu only acts through alpha
             r["par"]["alpha"] = [_q(1), _q(1)]
         r["pts"] = [rpoint(rng, 3, True) for _ in range(4)]
@@ -640,7 +640,7 @@ def expand_fr(st, seed):
     extra = {}
     if st["op"] == "ou":
         par = dict(alpha=[_q(rng.choice([1, 2])), _q(rng.choice([-1, 3]))], mu=[_q(rng.choice([0, 1])), _q(rng.choice([-1, 2]))],
-                   sigma=[_q(rng.choice([2, 4])), _q(rng.choice([2, -2]))])
+                   sigma=[_q(rng.choice([4, 6])), _q(rng.choice([2, -2]))])       # anisotropic diffusion: sigma_1^2 != sigma_2^2
     if st["op"] == "ns":
         par = dict(rho=_q(rng.choice([1, 2, 4])), nu=_q(rng.choice([1, 2, 3])))
         coefP = [[[rng.randint(-2, 2) for _ in range(deg + 1)] for _ in range(R)] for _ in range(d)]
